@@ -1961,6 +1961,11 @@ func (m *Module) validateFunctionWithMaxStackValues(
 					tp != api.ValueTypeExternref && tp != ValueTypeFuncref && tp != ValueTypeV128 {
 					return fmt.Errorf("invalid type %s for %s", ValueTypeName(tp), OpcodeTypedSelectName)
 				}
+				// Both operands and the result have the annotated type.
+				if (v1 != tp && v1 != valueTypeUnknown) || (v2 != tp && v2 != valueTypeUnknown) {
+					return fmt.Errorf("type mismatch on %s operands: must be %s", OpcodeTypedSelectName, ValueTypeName(tp))
+				}
+				v1 = tp
 			} else if isReferenceValueType(v1) || isReferenceValueType(v2) {
 				return fmt.Errorf("reference types cannot be used for non typed select instruction")
 			}
